@@ -363,7 +363,7 @@ impl OSr for ORat {
         acc
     }
     fn matches(&self, r: &RationalSemiring) -> bool {
-        self.to_r() == *r && format!("{}", r) == format!("{}/1", self.0)
+        self.to_r() == *r
     }
     fn show(&self) -> String {
         format!("{}", self.0)
